@@ -4,6 +4,8 @@ import (
 	"fmt"
 	"strings"
 
+	"github.com/uhn/ggql/pkg/ggql"
+
 	"verif/internal/back"
 	"verif/internal/model"
 	"verif/internal/ref"
@@ -247,6 +249,12 @@ func runC09(c *run.Ctx) {
 								rep("reference executor: " + diff)
 							}
 							_, _ = si, ii
+							// the same conditions put on the PARSED request through the public AST types (what a gateway does that
+							// hangs @include(if: $entitled) on fields before resolving): the rule is about the directive a selection
+							// carries, not about how it got there
+							if (sp || ip) && total%4 == 0 && (kind == "field-leaf" || kind == "field-composite" || kind == "inline" || kind == "spread" || kind == "meta-typename") {
+								c09Injected(c, h, bk, kind, key, depth, doc, target, dirs, vars, exp)
+							}
 						}
 					}
 				}
@@ -462,4 +470,87 @@ func c09Histories(c *run.Ctx, s *model.Schema, sdl string) int {
 	c.Set("histories_parse_once", n)
 	c.Count("history_resolve_calls", steps)
 	return n
+}
+
+// c09Injected parses the document WITHOUT the directives of the target selection, appends them to the parsed selection as
+// ggql.DirectiveUse values and resolves the executable; the answer must be the one the written directives get.
+func c09Injected(c *run.Ctx, h *back.Harness, bk, kind, key string, depth int, doc *model.Doc, target model.Sel, dirs []model.DirUse, vars map[string]interface{}, exp *ref.Result) {
+	strip := func(on bool) {
+		var d []model.DirUse
+		if on {
+			d = dirs
+		}
+		switch t := target.(type) {
+		case *model.Field:
+			t.Dirs = d
+		case *model.Inline:
+			t.Dirs = d
+		case *model.Spread:
+			t.Dirs = d
+		}
+	}
+	strip(false)
+	plain := doc.Print(model.LayoutN(0))
+	strip(true)
+	exe, err := h.Root.ParseExecutableString(plain)
+	if err != nil {
+		c.Violation("c09-injected", map[string]interface{}{"backend": bk, "document": plain, "diag": "the document without the directives does not parse: " + err.Error()})
+		return
+	}
+	op := exe.Ops["Q"]
+	if op == nil {
+		return
+	}
+	sels := op.Sels
+	for d := 0; d < depth; d++ {
+		var next []ggql.Selection
+		for _, sel := range sels {
+			if f, isF := sel.(*ggql.Field); isF && f.Name == "down" {
+				next = f.Sels
+			}
+		}
+		sels = next
+	}
+	var uses []*ggql.DirectiveUse
+	for _, du := range dirs {
+		var v interface{}
+		switch t := du.Args[0].Value.(type) {
+		case model.VarRef:
+			v = ggql.Var(string(t))
+		default:
+			v = t
+		}
+		uses = append(uses, &ggql.DirectiveUse{Directive: h.Root.GetType(du.Name), Args: map[string]*ggql.ArgValue{"if": {Arg: "if", Value: v}}})
+	}
+	found := false
+	for _, sel := range sels {
+		switch t := sel.(type) {
+		case *ggql.Field:
+			if (kind == "field-leaf" || kind == "field-composite" || kind == "meta-typename") && t.Name == key && !found {
+				t.Dirs = append(t.Dirs, uses...)
+				found = true
+			}
+		case *ggql.Inline:
+			if kind == "inline" && !found {
+				t.Dirs = append(t.Dirs, uses...)
+				found = true
+			}
+		case *ggql.FragRef:
+			if kind == "spread" && !found {
+				t.Dirs = append(t.Dirs, uses...)
+				found = true
+			}
+		}
+	}
+	if !found {
+		c.Count("injection_target_not_found", 1)
+		return
+	}
+	out := Do(h, Request{Exe: exe, OpName: "Q", Vars: vars}, nil)
+	c.Count("conditions_added_to_the_parsed_request", 1)
+	c.Eval("injected|"+plain+fmt.Sprint(dirs)+fmt.Sprint(vars)+bk, true)
+	if diff := Compare(exp, out, CompareOpts{}); diff != "" {
+		c.Violation("c09-injected-"+kind, map[string]interface{}{"backend": bk, "parsed_document": plain, "directives_added_to_the_parsed_selection": fmt.Sprint(dirs), "vars": vars,
+			"diag": "differs from the answer to the same directives written in the document: " + diff, "observed": out.Describe(), "expected": exp.Describe()})
+	}
 }
